@@ -268,12 +268,17 @@ abbrev Restr := Op × XNum
 /-- `[comparison(vv, ref) for comparison, ref in cls._restrictions]` -/
 def checks (rs : List Restr) (vv : BVal) : List Bool := rs.map fun r => cmp r.1 vv.toX r.2
 
-/-- `restricted_number_type.validation_fn` -/
+/-- `except OverflowError as ex: raise ValueError(...) from ex` around `cls._type(v)` -/
+def Err.overflowAsValue : Err → Err
+  | .overflow => .value
+  | e => e
+
+/-- `restricted_number_type.validation_fn` (an integer beyond the float range is an ordinary rejection) -/
 def validationFn (b : Base) (rs : List Restr) (j : Join) (v : PyVal) : Except Err Unit :=
   if v.isBool then .error .value
   else if b = .int ∧ v.isNonIntegralFloat then .error .value
   else match castBase b v with
-    | .error e => .error e
+    | .error e => .error e.overflowAsValue
     | .ok vv =>
       let check := checks rs vv
       if (j = .and ∧ ¬ check.all id) ∨ (j = .or ∧ ¬ check.any id) then .error .value
